@@ -62,6 +62,15 @@ pub struct WireLog {
     shred_seen: BTreeSet<u64>,
     /// raw skip certificates seen (sent or delivered), by slot: validated lazily by the safety oracle
     pub skip_cert_bytes: BTreeMap<u64, Vec<Arc<Vec<u8>>>>,
+    /// per shred (slot, slice, index): who sent it to whom and where it was delivered (only when enabled)
+    pub track_routes: bool,
+    pub routes: BTreeMap<(u64, u64, u64), ShredRoute>,
+}
+
+#[derive(Default, Clone, Debug)]
+pub struct ShredRoute {
+    pub sent: Vec<(usize, usize)>,
+    pub delivered: Vec<usize>,
 }
 
 pub struct Cluster {
@@ -122,6 +131,9 @@ impl Cluster {
                             if d.from.1 == slot_leader(n, p.slot) {
                                 w.first_shred.entry(p.slot).or_insert(d.t);
                             }
+                            if w.track_routes {
+                                w.routes.entry((p.slot, p.slice_index, p.shred_index)).or_default().sent.push((d.from.1, d.to.1));
+                            }
                             let key = crate::common::fnv(&d.bytes);
                             if w.shred_seen.insert(key) {
                                 w.shred_bytes.push(d.bytes.clone());
@@ -134,6 +146,14 @@ impl Cluster {
                 }
             }));
             c.on_deliver = Some(Box::new(move |d: &Datagram| {
+                if d.to.0 == Ep::Diss {
+                    let mut w = l2.lock().unwrap();
+                    if w.track_routes {
+                        if let Some(p) = ShredParts::parse(&d.bytes) {
+                            w.routes.entry((p.slot, p.slice_index, p.shred_index)).or_default().delivered.push(d.to.1);
+                        }
+                    }
+                }
                 if d.to.0 == Ep::All2All {
                     let mut w = l2.lock().unwrap();
                     match de_consensus(&d.bytes) {
